@@ -154,6 +154,24 @@ def mutate(root, rnd, t, ops=None):
     return {"op": op, "at": where}
 
 
+def reid(root, idfn=lambda i: "one-id"):
+    """The same tree with node ids chosen by the caller (default: ONE id for every node), obtained through the public
+    API: save as JSON, rewrite the ids, load.  Ids are the caller's business; child lists, names and texts define the tree."""
+    import json
+    from metapype.model import metapype_io
+    d = json.loads(metapype_io.to_json(root))
+    k = [0]
+
+    def go(o):
+        body = next(iter(o.values()))
+        body[0]["id"] = idfn(k[0])
+        k[0] += 1
+        for c in body[-1]["children"]:
+            go(c)
+    go(d)
+    return metapype_io.from_json(json.dumps(d))
+
+
 def fixture_root():
     from metapype.model import metapype_io
     return metapype_io.from_xml(open(os.path.join(REPO, "tests", "data", "eml.xml")).read())
